@@ -79,6 +79,7 @@ FamComplete ==
       \* sizes beyond the everyday ones: many commitments, large capacities (bits*aggregation up to 4096)
       S5 == { One(Plain(n, t, mc[1], mc[2], 0), "VerifyOnly") :
                 n \in {1, 4, 64}, t \in {1, 6}, mc \in {<<16, 16>>, <<16, 64>>, <<32, 32>>, <<64, 64>>, <<1, 64>>, <<2, 128>>} }
+         \cup { One(Plain(1, 1, mc[1], mc[2], 0), "VerifyOnly") : mc \in {<<256, 256>>, <<512, 512>>, <<512, 1024>>} }
   IN S1 \cup S2 \cup S3 \cup {s \in S4 : s.members[1].zb <= s.members[1].m} \cup S5
 
 (***************************************************************************************************)
@@ -155,6 +156,9 @@ Kind(n, t, kd) ==
     [] kd = "v1sL" -> LET mb == Plain(n, t, 1, 1, 1) IN [mb EXCEPT !.label = 1, !.v.label = 1]   \* seeded, made and verified in another context
     [] kd = "v1C"  -> LET mb == Plain(n, t, 1, 2, 1) IN [mb EXCEPT !.label = 2, !.v.label = 2]   \* seeded, context = label + caller state
     [] kd = "dup"  -> [Plain(n, t, 1, 1, 0) EXCEPT !.bseed = 7]       \* every "dup" member is the same triple (same openings, same RNG stream)
+    [] kd = "dupL" -> LET mb == [Plain(n, t, 1, 1, 0) EXCEPT !.bseed = 7] IN [mb EXCEPT !.v.label = 1]   \* the same triple, altered context
+    [] kd = "dupC" -> LET mb == [Plain(n, t, 1, 1, 0) EXCEPT !.bseed = 7] IN [mb EXCEPT !.v.label = 2]
+    [] kd = "v16"  -> Plain(n, t, 16, 16, 0)
     [] kd = "v4c8" -> Plain(n, t, 4, 8, 0)
     [] kd = "v1c16" -> Plain(n, t, 1, 16, 0)
     [] kd = "xs"   -> [Plain(n, t, 1, 1, 0) EXCEPT !.mut = [kind |-> "scalar", slot |-> "d1", j |-> t - 1, how |-> "plus1"]]
@@ -174,7 +178,7 @@ Kind(n, t, kd) ==
 ValidKinds == {"v1", "v1s", "v2", "v4c8"}
 BadKinds == {"xs", "xp", "xv", "xl", "xr", "xk"}
 DisKinds == {"dn", "dt", "dh", "dg", "dh8", "dg8", "vn", "vt"}
-Pattern(pt, x) == CASE pt = 1 -> (IF x % 4 = 0 \/ x = 1 THEN "dup" ELSE "v1") [] pt = 2 -> (IF x % 2 = 1 THEN "v1s" ELSE "v2") [] pt = 3 -> (IF x % 3 = 0 THEN "v4c8" ELSE IF x % 3 = 1 THEN "v1s" ELSE "v1c16")
+Pattern(pt, x) == CASE pt = 1 -> (IF x % 4 = 0 \/ x = 1 THEN "dup" ELSE "v1") [] pt = 2 -> (IF x % 4 = 3 THEN "v1sL" ELSE IF x % 2 = 1 THEN "v1s" ELSE "v2") [] pt = 3 -> (IF x % 3 = 0 THEN "v4c8" ELSE IF x % 3 = 1 THEN "v1s" ELSE "v1c16")
 FamBatch ==
   LET MaxK == 3 * MaxBatch + 1
       NT == IF Quick THEN {<<4, 1>>} ELSE {<<4, 1>>, <<2, 2>>}
@@ -190,9 +194,13 @@ FamBatch ==
       Plain3(nt, d, a) == [x \in 1..3 |-> Kind(nt[1], nt[2], IF x = a THEN d ELSE "v1")]
       Dups(nt) == { <<Kind(nt[1], nt[2], "dup"), Kind(nt[1], nt[2], "dup")>>,
                     <<Kind(nt[1], nt[2], "dup"), Kind(nt[1], nt[2], "v1s"), Kind(nt[1], nt[2], "dup")>>,
-                    <<Kind(nt[1], nt[2], "dup"), Kind(nt[1], nt[2], "xs"), Kind(nt[1], nt[2], "dup")>> }
+                    <<Kind(nt[1], nt[2], "dup"), Kind(nt[1], nt[2], "xs"), Kind(nt[1], nt[2], "dup")>>,
+                    <<Kind(nt[1], nt[2], "dup"), Kind(nt[1], nt[2], "dupL")>>, <<Kind(nt[1], nt[2], "dup"), Kind(nt[1], nt[2], "dup"), Kind(nt[1], nt[2], "dupC")>> }
   IN  { ScenF(Plain3(nt, d, a), "VerifyOnly", NoSkew, FALSE, <<Kind(nt[1], nt[2], "v1")>>) : nt \in NT, d \in DisKinds \cup BadKinds, a \in 1..3 }
   \cup UNION { { ScenF(ms, mode, NoSkew, FALSE, <<Kind(nt[1], nt[2], "v1")>>) : ms \in Dups(nt), mode \in {"VerifyOnly", "RecoverAndVerify"} } : nt \in NT }
+  \cup { ScenF(ms, "VerifyOnly", NoSkew, FALSE, <<Kind(64, 1, "v1")>>) :
+            ms \in { <<Kind(64, 1, "v16"), Kind(64, 1, "v1"), Kind(64, 1, "xs")>>, <<Kind(64, 1, "v1"), Kind(64, 1, "v16"), Kind(64, 1, "v1")>>,
+                      <<Kind(64, 1, "v16"), Kind(64, 1, "v16"), Kind(64, 1, "v1"), Kind(64, 1, "xk")>> } }
   \cup { ScenF(Mem(l, nt), mode, NoSkew, FALSE, <<Kind(nt[1], nt[2], "v1")>>) : l \in {l \in Lay : Good(l)}, nt \in NT, mode \in {"VerifyOnly", "RecoverAndVerify"} }
   \cup { ScenF(Mem([k |-> k, pt |-> 2, a |-> 0, ka |-> "xs", b |-> 0, kb |-> "xs"], <<4, 1>>), "VerifyOnly", sk, FALSE, <<Kind(4, 1, "v1")>>) : k \in {1, 2, MaxBatch + 1}, sk \in Sk }
 
@@ -220,7 +228,10 @@ FamCapacity ==
                     n \in (IF Quick THEN {2, 64} ELSE AllN), t \in {1, 2}, m \in {1, 2, 4, 8}, cp \in Caps, cv \in Caps }
       Mixed == { Scen(<<[Plain(n, 1, m1, c1, 0) EXCEPT !.v.cap = c1v], [Plain(n, 1, m2, c2, 0) EXCEPT !.v.cap = c2v], Plain(n, 1, 1, c3, 0)>>, "VerifyOnly", NoSkew, FALSE) :
                    n \in {2, 8}, m1 \in {1, 2, 4}, m2 \in {1, 4}, c1 \in {4, 8}, c1v \in {4, 16}, c2 \in {4, 16}, c2v \in {4, 8}, c3 \in {1, 32} }
-  IN {s \in Single : s.members[1].cap >= s.members[1].m /\ s.members[1].v.cap >= s.members[1].m} \cup Mixed
+      Big == { One([Plain(64, 1, m, cp, 0) EXCEPT !.v.cap = cv], "VerifyOnly") : m \in {1, 2}, cp \in {2, 64}, cv \in {2, 64, 128} }
+         \cup { Scen(<<Plain(64, 1, m1, c1, 0), Plain(64, 1, m2, c2, 0)>>, "VerifyOnly", NoSkew, FALSE) :
+                   m1 \in {1, 2}, c1 \in {1, 2, 64}, m2 \in {1, 2}, c2 \in {2, 64} }
+  IN {s \in Single \cup Big : \A x \in 1..Len(s.members) : s.members[x].cap >= s.members[x].m /\ s.members[x].v.cap >= s.members[x].m} \cup Mixed
 
 (***************************************************************************************************)
 (* hedge (C13, C14): pairs of prover runs with the same blindings and the same (possibly faulty)    *)
